@@ -346,6 +346,25 @@ def options_reach_blocks_inside_newton_loop():
     if 'after 1 ' not in solved:
         return dict(what='solve_impulse_nonlinear loses per-block options inside its Newton loop: the nested solved block did not see maxit=1 (impulse_nonlinear with the same options does)',
                     input=inp, observed=solved, expected=direct, signature=dict(op='per-block-options', where='solve_impulse_nonlinear'))
+    # the same at nesting depth 2 (a solved block inside a solved block): options addressed to the innermost block must travel through every level, limit and tolerance alike
+    from sequence_jacobian import combine
+    mid = combine([inner, m.pricing], name='mid').solved(unknowns={'p': (-4.0, 4.0)}, targets=['res_p'], name='mid_solved')
+    deep = combine([mid, m.extra], name='deep')
+    ssd = deep.steady_state(dict(m.CALIB))
+    inp2 = dict(kind='per-block-options', model='solved-in-solved', options={inner.name: dict(maxit=1)})
+    quiet = {'mid_solved': dict(verbose=False), 'deep': dict(verbose=False)}
+    d2 = outcome(lambda: deep.impulse_nonlinear(ssd, sh, options={**quiet, inner.name: dict(maxit=1, verbose=False, tol=1e-9)}))
+    if 'after 1 ' not in d2:
+        return dict(what='impulse_nonlinear does not pass options addressed to a solved block at nesting depth 2 down to it (its iteration limit maxit=1 was not seen)', input=inp2, observed=d2,
+                    signature=dict(op='per-block-options', where='depth-2'))
+    try:
+        r = deep.impulse_nonlinear(ssd, sh, options={**quiet, inner.name: dict(verbose=False, tol=1e-13, maxit=60)})
+        err = float(np.abs(r['res_k']).max())
+        if err >= 1e-13:
+            return dict(what='the tolerance addressed to a solved block at nesting depth 2 is not honoured: its target deviates by more than the stated tolerance', input=dict(inp2, options={inner.name: dict(tol=1e-13)}),
+                        observed=err, signature=dict(op='per-block-options', where='depth-2', what='tol'))
+    except ValueError:
+        pass            # the stricter tolerance cannot be met in floating point: raising is the documented alternative
     return None
 
 
